@@ -1279,6 +1279,11 @@ def get_padded_extrema(X, pad_width=2, mode='peaks', parabolic_extrema=False,
     if X.ndim == 2:
         X = X[:, 0]
 
+    if X.dtype.kind == 'u':
+        # The negation used to find troughs wraps around for unsigned integers
+        # (a trough at 0 stays at 0) - work on a signed copy of such data
+        X = X.astype(np.int64) if X.dtype.itemsize < 8 else X.astype(float)
+
     if mode == 'peaks':
         max_locs, max_ext = _find_extrema(X, parabolic_extrema=parabolic_extrema)
     elif mode == 'troughs':
